@@ -162,6 +162,9 @@ def run_path(contract, func, loader, contracts_by_target, variant, prefix):
         for k, v in getattr(c, "loops", {}).items():
             loops.setdefault((t, k), v)
     interp = Interp(ctx, loader, contracts=contracts_by_target, loops=loops, root=contract.target)
+    for t, c in list(contracts_by_target.items()) + [(contract.target, contract)]:
+        for nm, hook in getattr(c, "observe", {}).items():
+            interp.observers[(t, nm)] = hook
     v = V(ctx, interp, contract, variant)
     pr.pending = []
     pr.dropped = {}
